@@ -2,6 +2,7 @@ SPECIFICATION TSpec
 CONSTANTS
   Acc = {"a", "b"}
   Members = {"a", "b"}
+  MaxJoins = 99
   MaxMsgs = 99
   MaxFaults = 99
   MaxOpen = 99
